@@ -349,12 +349,15 @@ WBXML_DECLARE(WBXMLError) wbxml_conv_wbxml2xml_withlen(WB_UTINY  *wbxml,
     if (ret != WBXML_OK)
         return ret;
 
-    wbxml_conv_wbxml2xml_set_gen_type(conv, params->gen_type);
-    wbxml_conv_wbxml2xml_set_language(conv, params->lang);
-    wbxml_conv_wbxml2xml_set_charset(conv, params->charset);
-    wbxml_conv_wbxml2xml_set_indent(conv, params->indent);
-    if (params->keep_ignorable_ws)
-        wbxml_conv_wbxml2xml_enable_preserve_whitespaces(conv);
+    /* If params is NULL, the default values set at creation are used */
+    if (params != NULL) {
+        wbxml_conv_wbxml2xml_set_gen_type(conv, params->gen_type);
+        wbxml_conv_wbxml2xml_set_language(conv, params->lang);
+        wbxml_conv_wbxml2xml_set_charset(conv, params->charset);
+        wbxml_conv_wbxml2xml_set_indent(conv, params->indent);
+        if (params->keep_ignorable_ws)
+            wbxml_conv_wbxml2xml_enable_preserve_whitespaces(conv);
+    }
     ret = wbxml_conv_wbxml2xml_run(conv, wbxml, wbxml_len, xml, xml_len);
     wbxml_conv_wbxml2xml_destroy(conv);
     return ret;
@@ -373,13 +376,16 @@ WBXML_DECLARE(WBXMLError) wbxml_conv_xml2wbxml_withlen(WB_UTINY  *xml,
     if (ret != WBXML_OK)
         return ret;
 
-    wbxml_conv_xml2wbxml_set_version(conv, params->wbxml_version);
-    if (params->keep_ignorable_ws)
-        wbxml_conv_xml2wbxml_enable_preserve_whitespaces(conv);
-    if (!params->use_strtbl)
-        wbxml_conv_xml2wbxml_disable_string_table(conv);
-    if (params->produce_anonymous)
-        wbxml_conv_xml2wbxml_disable_public_id(conv);
+    /* If params is NULL, the default values set at creation are used */
+    if (params != NULL) {
+        wbxml_conv_xml2wbxml_set_version(conv, params->wbxml_version);
+        if (params->keep_ignorable_ws)
+            wbxml_conv_xml2wbxml_enable_preserve_whitespaces(conv);
+        if (!params->use_strtbl)
+            wbxml_conv_xml2wbxml_disable_string_table(conv);
+        if (params->produce_anonymous)
+            wbxml_conv_xml2wbxml_disable_public_id(conv);
+    }
     ret = wbxml_conv_xml2wbxml_run(conv, xml, xml_len, wbxml, wbxml_len);
     wbxml_conv_xml2wbxml_destroy(conv);
     return ret;
